@@ -229,7 +229,6 @@ def enum_configs(cfgfile: str) -> list[dict]:
     return out
 
 
-_LAST_STATE = re.compile(r"(?ms)^STATE_\d+ ==\s*\n((?:(?!^STATE_\d+ ==).)*)\Z")
 
 
 def simulate_behaviours(n: int, seed: int) -> list[tuple[dict, list]]:
